@@ -8,6 +8,7 @@ import (
 	"os/signal"
 	"strconv"
 	"syscall"
+	"time"
 
 	"kverif/internal/checks"
 	"kverif/internal/load"
@@ -40,6 +41,7 @@ func main() {
 			usage()
 		}
 		id := os.Args[2]
+		go load.TrimGoCache(12<<30, 2*time.Hour)
 		fs := flag.NewFlagSet("check", flag.ExitOnError)
 		tier := fs.String("tier", "", "quick or thorough")
 		_ = fs.Parse(os.Args[3:])
